@@ -362,3 +362,86 @@ func VX_C05_RawLongFields(args []int) {
 	vxAssert(w.off == len(w.data), "both frames consumed exactly")
 	vxCover("c05.raw.longfields")
 }
+
+func init() { vxRegister("VX_C01_OverlappingPacks", VX_C01_OverlappingPacks) }
+
+// vxSlowW is a writer whose Write takes time: another Pack runs in the
+// meantime (nested call), then the bytes are taken.
+type vxSlowW struct {
+	vxBuf
+	during func()
+}
+
+func (w *vxSlowW) Write(p []byte) (int, error) {
+	if f := w.during; f != nil {
+		w.during = nil
+		f()
+	}
+	return w.vxBuf.Write(p)
+}
+
+// VX_C01_OverlappingPacks: after earlier Packs failed at various points
+// (body cannot be marshalled, transfer filter fails, message too big, write
+// error), two Packs on two different connections overlap in time: each
+// connection carries exactly its own message. args: failure(0 none, 1 body marshal, 2 unregistered codec, 3 oversize, 4 write error), nBody
+func VX_C01_OverlappingPacks(args []int) {
+	vxPoolMode(1)
+	mk := func(seq int32, method string, body []byte) Message {
+		m := NewMessage()
+		m.SetSeq(seq)
+		m.SetMtype(1)
+		m.SetServiceMethod(method)
+		m.SetBodyCodec('s')
+		m.SetBody(body)
+		return m
+	}
+	switch args[0] {
+	case 1:
+		bad := mk(9, "/bad", nil)
+		bad.SetBody(make(chan int)) // the string/plain codec cannot marshal a channel
+		vxAssert(RawProtoFunc(&vxBuf{}).Pack(bad) != nil, "a body that cannot be marshalled fails the Pack")
+	case 2:
+		bad := mk(9, "/bad", nil)
+		bad.SetBodyCodec(0xEE)
+		bad.SetBody(&struct{ A int }{1})
+		vxAssert(RawProtoFunc(&vxBuf{}).Pack(bad) != nil, "an unregistered body codec fails the Pack")
+	case 3:
+		SetMessageSizeLimit(40)
+		vxAssert(RawProtoFunc(&vxBuf{}).Pack(mk(9, "/bad", make([]byte, 64))) != nil, "an oversized message fails the Pack")
+		SetMessageSizeLimit(0)
+	case 4:
+		vxAssert(RawProtoFunc(vxFailW{}).Pack(mk(9, "/bad", []byte("x"))) != nil, "a write error fails the Pack")
+	}
+	bodyA, bodyB := append([]byte("SECRET-OF-A-"), vxBytes("a", args[1])...), append([]byte("hello-from-B-"), vxBytes("b", args[1])...)
+	wantA, wantB := string(bodyA), string(bodyB)
+	wA, wB := &vxSlowW{}, &vxBuf{}
+	var errB error
+	wA.during = func() { errB = RawProtoFunc(wB).Pack(mk(3, "/method/of/b", bodyB)) }
+	errA := RawProtoFunc(wA).Pack(mk(3, "/method/of/a", bodyA))
+	vxAssert(errA == nil && errB == nil, "both Packs succeed")
+	check := func(data []byte, method, body, who string) {
+		got := NewMessage(vxBytesBody())
+		r := &vxBuf{data: append([]byte{}, data...)}
+		err := RawProtoFunc(r).Unpack(got)
+		vxAssert(err == nil && r.off == len(r.data), "connection "+who+" carries exactly one well-formed frame")
+		if err == nil {
+			vxAssert(got.ServiceMethod() == method && got.Seq() == 3, "connection "+who+" carries its own header")
+			b, _ := got.Body().(*[]byte)
+			vxAssert(b != nil && string(*b) == body, "connection "+who+" carries its own body and nothing of the other message")
+		}
+	}
+	check(wA.data, "/method/of/a", wantA, "A")
+	check(wB.data, "/method/of/b", wantB, "B")
+	vxCover("c01.overlapping-packs")
+}
+
+type vxFailW struct{}
+
+func (vxFailW) Write(p []byte) (int, error) { return 0, errVxWrite }
+func (vxFailW) Read(p []byte) (int, error)  { return 0, errVxWrite }
+
+var errVxWrite = vxErr("write failed")
+
+type vxErr string
+
+func (e vxErr) Error() string { return string(e) }
